@@ -27,8 +27,24 @@ def handle1 (o : Op) : String :=
     | none => "bad-op"
     | some ovl =>
       let sec := UInt64.ofNat sector
+      -- small same-buffer cases run through the ARENA model (`cryptMem`, the harness's buffer geometry:
+      -- 0xa5-filled buffer, src at a = max(0,-d), dst at a+d); everything else through the functional
+      -- model — `Props.xts_inplace_eq` proves the two agree
+      let viaMem (f E2 : Bytes → Bytes) (d : Int) : String :=
+        let a := (-d).toNat
+        let dOff := (d + (a : Int)).toNat
+        let size := a + d.natAbs + src.length + dstLen + 64
+        let arena := Mem.wr (List.replicate size (0xa5 : UInt8)) a src
+        match cryptMem f E2 arena ⟨dOff, dstLen⟩ ⟨a, src.length⟩ sec with
+        | .panic => "panic"
+        | .ok m => showOut src.length (.ok (Mem.rd m dOff src.length))
       let run (E1 D1 E2 : Bytes → Bytes) : String :=
-        s!"{showOut src.length (encrypt E1 E2 dstLen ovl src sec)} {showOut src.length (decrypt D1 E2 dstLen ovl src sec)}"
+        match ovl with
+        | some d =>
+          if src.length ≤ 256 then s!"{viaMem E1 E2 d} {viaMem D1 E2 d}"
+          else s!"{showOut src.length (encrypt E1 E2 dstLen ovl src sec)} {showOut src.length (decrypt D1 E2 dstLen ovl src sec)}"
+        | none =>
+          s!"{showOut src.length (encrypt E1 E2 dstLen ovl src sec)} {showOut src.length (decrypt D1 E2 dstLen ovl src sec)}"
       match o.str "ciph" with
       | "toy" =>
         if !newCipherOk [16] 16 key.length then "err" else
